@@ -123,7 +123,11 @@ def numpy_loss(est, z):
 def plan(ctx):
     rng = np.random.default_rng(ctx.seed)
     base = dict(n=24, d=2, kind="gauss", data_seed=int(ctx.seed) * 100 + 1, n_landmarks=8)
-    grids = {"adam": [1, int(rng.integers(2, 6)), int(rng.integers(6, 13))], "advi": [1, int(rng.integers(2, 5)), int(rng.integers(5, 9))]}
+    def off_ten(lo, hi):       # an iteration count beyond one block of ten that is not a multiple of ten (blocked loops drop remainders)
+        v = int(rng.integers(lo, hi))
+        return v + 1 if v % 10 == 0 else v
+    grids = {"adam": [1, int(rng.integers(2, 6)), int(rng.integers(6, 13)), off_ten(13, 38)],
+             "advi": [1, int(rng.integers(2, 5)), int(rng.integers(5, 9)), off_ten(11, 24)]}
     quick_grids = grids
     if ctx.thorough:
         grids = {"adam": [1, 2, 7, 40, 200], "advi": [1, 2, 5, 30, 60]}
@@ -170,7 +174,9 @@ def run(ctx):
         if os.path.exists(outp):
             os.remove(outp)
         procs.append((outp, subprocess.Popen([sys.executable, "-m", "checks.C17", "--worker", cfg_path, outp], cwd=VERIF,
-                                             env=dict(os.environ), stdout=subprocess.DEVNULL, stderr=subprocess.PIPE)))
+                                             # each fresh interpreter gets its own hash salt (the in-process fits run with
+                                             # PYTHONHASHSEED=0): results must not depend on str/bytes hashing
+                                             env=dict(os.environ, PYTHONHASHSEED=str(w + 1)), stdout=subprocess.DEVNULL, stderr=subprocess.PIPE)))
 
     meta = None
     try:
